@@ -134,6 +134,21 @@ func replayDet(line []byte, a *Acc) {
 			if !check("XmlIndentWriter", w.Bytes(), err, string(bi)) {
 				return
 			}
+			// a root tag that is ALSO the Map's only key: the Map is wrapped all the same (one more level), in the compact and the
+			// indented form alike
+			if rep == 0 && !strings.Contains(l.X, "\n") {
+				rx, e1 := m.Xml("r")
+				rxi, e2 := m.XmlIndent("", "  ", "r")
+				if !check("Xml(\"r\") on a Map whose only key is r", rx, e1, "<r>"+l.X+"</r>") {
+					return
+				}
+				t1, _ := significantTokens(rx, false)
+				t2, te := significantTokens(rxi, false)
+				if e2 != nil || te != nil || strings.Join(t1, "\x00") != strings.Join(t2, "\x00") {
+					one("det:XmlIndent-roottag", fmt.Sprintf("XmlIndent(\"\", \"  \", \"r\") = %q (err %v) differs from Xml(\"r\") = %q beyond inter-element white space", rxi, e2, rx))
+					return
+				}
+			}
 			ax, err := mxj.AnyXml(inner, "r")
 			if !check("AnyXml", ax, err, l.X) {
 				return
